@@ -23,7 +23,17 @@ pub enum Case {
     /// A tree that changes while it is backed up: when the backup reports the `when`-th file,
     /// the `trunc`-th later file of the same directory is truncated to nothing. The written
     /// index and the listing must still be strictly increasing.
-    WalkChanging { opts: Opts, tree: Tree, when: u16, trunc: u16 },
+    WalkChanging {
+        opts: Opts,
+        tree: Tree,
+        when: u16,
+        trunc: u16,
+        /// Instead of the truncation: the chosen directory is moved out of the tree when the
+        /// backup reports its first file, and moved back `.1` reported files later (a
+        /// directory that is briefly absent while the tree is walked).
+        #[serde(default)]
+        blink: Option<(u16, u8)>,
+    },
 }
 
 pub const ALPHABET: &[&str] = &["a", "a.", "a-", "a b", "b", "é", ".x", "~"];
@@ -298,7 +308,9 @@ fn strategy(_tier: Tier) -> BoxedStrategy<Case> {
         1 => prop::collection::vec(junk_string(), 1..8).prop_map(Case::Strings),
         5 => tree::opts_tree_strategy(TreeCfg { long_names: true, ..TreeCfg::plain() }).prop_map(|(opts, tree)| Case::Walk { opts, tree }),
         1 => (tree::opts_tree_strategy(TreeCfg { max_children: 8, links: false, ..TreeCfg::plain() }), any::<u16>(), any::<u16>())
-            .prop_map(|((opts, tree), when, trunc)| Case::WalkChanging { opts: Opts { cap: opts.cap.max(4096), ..opts }, tree, when, trunc }),
+            .prop_map(|((opts, tree), when, trunc)| Case::WalkChanging { opts: Opts { cap: opts.cap.max(4096), ..opts }, tree, when, trunc, blink: None }),
+        1 => (tree::opts_tree_strategy(TreeCfg { max_children: 8, links: false, ..TreeCfg::plain() }), any::<u16>(), 1u8..6)
+            .prop_map(|((opts, tree), dir, back)| Case::WalkChanging { opts, tree, when: 0, trunc: 0, blink: Some((dir, back)) }),
     ]
     .boxed()
 }
@@ -344,7 +356,54 @@ fn run(case: &Case, cx: &mut Cx) -> CaseResult {
             cx.nontrivial = ss.iter().any(|s| s.starts_with('/') && !ref_valid(s)) && ss.iter().any(|s| ref_valid(s));
             Ok(())
         }
-        Case::WalkChanging { opts, tree, when, trunc } => {
+        Case::WalkChanging { opts, tree, blink: Some((dir, back)), .. } => {
+            let src = cx.dir("src");
+            let arch = cx.dir("arch");
+            let holding = cx.dir("holding");
+            tree::materialise(tree, &src);
+            let dirs: Vec<String> = tree.dirs().into_iter().filter(|d| d != "/").collect();
+            if dirs.is_empty() {
+                return Ok(());
+            }
+            let d = dirs[(*dir as usize * dirs.len()) >> 16].clone();
+            let c = ops::create_archive(&arch);
+            ensure!(c.clean(), "C11/create", "{}", c.describe());
+            let at_home = tree::fs_path(&src, &d);
+            let mut reported = 0u32;
+            let back_at = 1 + *back as u32;
+            ops::set_on_change(Some(Box::new(move |_apath: &str| {
+                reported += 1;
+                if reported == 1 {
+                    let _ = std::fs::rename(&at_home, &holding);
+                } else if reported == back_at {
+                    let _ = std::fs::rename(&holding, &at_home);
+                }
+            })));
+            let b = ops::backup(&arch, &None, &src, *opts, &[]);
+            ops::set_on_change(None);
+            ensure!(b.panic.is_none(), "C11/backup-of-changing-tree-panicked", "{}", b.describe());
+            let ra = format::scan(&arch);
+            if let Some(band) = ra.bands.get(&0) {
+                let mut idx_paths = vec![];
+                for h in &band.hunks {
+                    match &h.entries {
+                        Ok(es) => idx_paths.extend(es.iter().map(|e| e.apath.clone())),
+                        Err(e) => fail!("C11/hunk-undecodable", "{}: {e}", h.relpath),
+                    }
+                }
+                strictly_increasing("written-index", &idx_paths)?;
+                let l = ops::list_entries(&arch, &None, &Sel::Band(0), "/", &[], 10_000);
+                ensure!(l.panic.is_none(), "C11/list-panicked", "{}", l.describe());
+                if let Ok(es) = &l.result {
+                    let listing: Vec<String> = es.iter().map(|e| e.apath.to_string()).collect();
+                    strictly_increasing("listing", &listing)?;
+                }
+            }
+            cx.label("directory-briefly-absent-during-backup");
+            cx.nontrivial = dirs.len() >= 2 && tree.file_count() > *back as usize;
+            Ok(())
+        }
+        Case::WalkChanging { opts, tree, when, trunc, .. } => {
             let src = cx.dir("src");
             let arch = cx.dir("arch");
             tree::materialise(tree, &src);
